@@ -35,7 +35,7 @@ checks = {
     text="MPCLC format only. Round trip Marshal/ParseMPCLC/Marshal on 5 signature shapes (plain, array, struct with unnamed member, slice-typed arguments, struct with a slice member) x 1..3 symbolic gates (byte-identical re-serialisation), and ParseMPCLC on a valid header followed by up to 14 (thorough 27) fully symbolic bytes of symbolic length with symbolic NumGates/NumWires: never panics, and an accepted circuit has inputs defined before use and all wires assigned. One defect found this way was repaired (fix: f84e94e).",
     ref="DESIGN.md C14", engine="gosymx"),
  "C04": dict(cat="other", tech="symbolic transcript of the real garbler (go/ssa) + validity check of every 16-byte window pair at every byte offset (concrete interpretations / SMT)",
-    text="Whole-circuit mode and the sha2pc Round-3 payload: the real Garbler's complete garbler->evaluator byte transcript (plus the OT-revealed labels), and every label-sized value the real sha2pc.GarblerRound3 puts into the Round-3 message (synthetic circuit, stub curve), are recorded symbolically (all randomness symbolic, AES uninterpreted) and every window pair / single window is decided: 'differs by R for all randomness' = leak. Includes a 520-input-bit session (beyond the label batch size). One genuine defect is reported as a known finding (sha2pc OutputHints carry both labels of every output wire). Streaming mode is outside this check.",
+    text="Whole-circuit mode and the sha2pc Round-3 payload: the real Garbler's complete garbler->evaluator byte transcript (plus the OT-revealed labels), and every label-sized value the real sha2pc.GarblerRound3 puts into the Round-3 message (synthetic circuit, stub curve), are recorded symbolically (all randomness symbolic, AES uninterpreted) and every window pair / single window is decided: 'differs by R for all randomness' = leak. Includes a 520-input-bit session (beyond the label batch size). Streaming mode is covered at the garbling kernel (real NewStreaming + Streaming.Garble on sequences of per-instruction circuits sharing an input wire); the compiler-driven part of Program.Stream is outside. One genuine defect is reported as a known finding (sha2pc OutputHints carry both labels of every output wire), one was repaired (fix 83b9d40: per-circuit tweak restart in streaming mode).",
     ref="DESIGN.md C04", engine="gosymx"),
  "C06": dict(cat="other", tech="bounded symbolic execution of go/ssa + rewriting + SMT (z3): symbolic Delta, keys, PRG/AES as uninterpreted functions, all choice vectors",
     text="The real IKNP extension (label and packed-bit form) and the COT layer are executed symbolically at batch sizes 1..513 with every choice bit, Delta, all base keys and all PRG/AES outputs symbolic (ideal base OT); the correlation received_i = sent_i xor choice_i*Delta and 'receiver holds exactly the chosen label' are obligations for all choice vectors. One defect found this way (ReceiveBits for n not a multiple of 64) was repaired (fix: 16cbb1c). RSA, Chou-Orlandi and ROT are outside the claim.",
